@@ -462,6 +462,9 @@ static void run_case(char *line, const char *outdir, int seq)
             if (!strcmp(extra, "addfix")) { d2[0] = dy; d2[1] = dx; ncmpi_def_var(ncid, "fnew", NC_INT, 2, d2, &nv); }
             if (!strcmp(extra, "addfixfill")) { d2[0] = dy; d2[1] = dx; ncmpi_def_var(ncid, "fnew", NC_INT, 2, d2, &nv); ncmpi_def_var_fill(ncid, nv, 0, NULL); }
             if (!strcmp(extra, "addrec")) { d2[0] = dt; d2[1] = dx; ncmpi_def_var(ncid, "rnew", NC_INT, 2, d2, &nv); }
+            /* new variables in fill mode with fewer elements than ranks: some ranks get an empty share of the fill */
+            if (!strcmp(extra, "addtinyfill")) { int d1; ncmpi_def_dim(ncid, "one", 1, &d1); ncmpi_def_var(ncid, "tiny", NC_INT, 1, &d1, &nv); ncmpi_def_var_fill(ncid, nv, 0, NULL); }
+            if (!strcmp(extra, "addrecfill")) { d2[0] = dt; ncmpi_def_var(ncid, "rnew1", NC_INT, 1, d2, &nv); ncmpi_def_var_fill(ncid, nv, 0, NULL); }
         }
         if (!strcmp(api, "close_def")) ncmpi_redef(ncid);
         int is_enddef = !strcmp(api, "enddef") || !strcmp(api, "enddef_") || !strcmp(api, "close_def");
@@ -512,10 +515,14 @@ static void run_case(char *line, const char *outdir, int seq)
             }
             obr = o_off[0] < o_off[1] ? o_off[0] : o_off[1];
             nbr = n_off[0] < n_off[1] ? n_off[0] : n_off[1];
-            if (!strcmp(extra, "addrec") && n_off[3] < nbr) nbr = n_off[3];
+            if ((!strcmp(extra, "addrec") || !strcmp(extra, "addrecfill")) && n_off[3] < nbr) nbr = n_off[3];
             fprintf(out, "L %s lay=%d:%lld:%lld:%lld:%lld:%lld:%lld:%lld:%d:%d:1:%lld-%lld-%d\n", cur_id, np,
                     (long long)o_ext, (long long)n_ext, (long long)obr, (long long)nbr, (long long)o_rs, (long long)n_rs,
-                    (long long)o_nr, nv, !strcmp(extra, "addfixfill"), (long long)o_off[2], (long long)n_off[2], NY * NX * 4);
+                    (long long)o_nr, nv,
+                    /* fillerup_aggregate does its collective write iff there is at least one fill segment: one per new fixed-size
+                       variable in fill mode, one per existing record of a new record variable in fill mode */
+                    (!strcmp(extra, "addfixfill") || !strcmp(extra, "addtinyfill") || (!strcmp(extra, "addrecfill") && o_nr > 0)),
+                    (long long)o_off[2], (long long)n_off[2], NY * NX * 4);
             fflush(out);
         }
     }
